@@ -17,6 +17,7 @@ type feederCtx struct {
 	sema uint32
 	cmd  int64
 	now  int64
+	res  int64 // 1 if the last fire delivered, 0 if the channel was still full
 }
 
 //go:norace
@@ -285,7 +286,7 @@ func TimerReset(id uint32, d, period int64) bool {
 // StartTimer creates a kernel timer that calls fire(now) (from a private feeder goroutine)
 // d nanoseconds from now and then every period nanoseconds (0 = one shot). fire must not
 // block. It returns the timer id.
-func StartTimer(d, period int64, auto bool, fire func(now int64)) uint32 {
+func StartTimer(d, period int64, auto bool, fire func(now int64) bool) uint32 {
 	id := NewID()
 	fd := newFeederCtx()
 	go feeder(fd, fire)
@@ -298,14 +299,22 @@ func StartTimer(d, period int64, auto bool, fire func(now int64)) uint32 {
 
 // feeder is not a task. It waits for the kernel's command, performs the non-blocking
 // delivery and acknowledges, so the kernel knows the effect is complete.
-func feeder(fd *feederCtx, fire func(now int64)) {
+func feeder(fd *feederCtx, fire func(now int64) bool) {
 	for {
 		cmd, now := feederWait(fd)
 		if cmd == 2 { // quit
 			return
 		}
-		fire(now)
+		feederDone(fd, fire(now))
 		semrelease(&ksema, true, 0) // acknowledge: the kernel is waiting for exactly this
+	}
+}
+
+//go:norace
+func feederDone(fd *feederCtx, delivered bool) {
+	fd.res = 0
+	if delivered {
+		fd.res = 1
 	}
 }
 
@@ -363,6 +372,7 @@ const (
 	NetCtlWriteErrPerm = 4 // all writes fail from now (n>0) or stop failing (n==0)
 	NetCtlPendingIn    = 5 // query: number of inbound frames not yet read
 	NetCtlReaderParked = 6 // query: 1 if a reader is blocked in NetRead
+	NetCtlReopen       = 7 // a new socket: clears the closed flag, pending faults and the inbound queue
 )
 
 func NetCtl(verb int, n int) int64 {
@@ -399,11 +409,82 @@ const (
 	FSCtlFailRead   = 5 // a = k: the k-th read from now fails with EIO
 	FSCtlWriteCount = 6 // r0 = number of writes so far
 	FSCtlHistory    = 7 // a = index -> payload name\0content of the idx-th write (r0=1 if exists)
+	FSCtlReset      = 8 // remove every file
 )
+
+// FSRename renames a file atomically.
+func FSRename(from, to string) int {
+	p := append(append([]byte(from), 0), to...)
+	return int(call(opFSRename, 0, 0, 0, 0, p).r0)
+}
+
+// FSRemove removes a file.
+func FSRemove(name string) int { return int(call(opFSRemove, 0, 0, 0, 0, []byte(name)).r0) }
+
+// FSOp is one recorded mutation of the simulated disk.
+type FSOp struct {
+	Kind    string // write, rename, remove
+	Name    string
+	To      string
+	Data    []byte
+	Prev    []byte
+	HadPrev bool
+}
+
+// FSOps returns the complete mutation history of the simulated disk.
+func FSOps() []FSOp {
+	var out []FSOp
+	for i := 0; ; i++ {
+		r := call(opFSCtl, FSCtlHistory, int64(i), 0, 0, nil)
+		if r.r0 != 1 {
+			return out
+		}
+		p := r.payload
+		j := 0
+		for j < len(p) && p[j] != 0 {
+			j++
+		}
+		switch r.r1 {
+		case -2:
+			out = append(out, FSOp{Kind: "rename", Name: string(p[:j]), To: string(p[j+1:])})
+		case -3:
+			out = append(out, FSOp{Kind: "remove", Name: string(p)})
+		default:
+			rest := p[j+1:]
+			op := FSOp{Kind: "write", Name: string(p[:j]), Data: rest}
+			if r.r1 >= 0 {
+				n := int(r.r1)
+				op.Data, op.Prev, op.HadPrev = rest[:len(rest)-n], rest[len(rest)-n:], true
+			}
+			out = append(out, op)
+		}
+	}
+}
 
 func FSCtl(verb int, a, b, c int64, payload []byte) (int64, []byte) {
 	r := call(opFSCtl, int64(verb), a, b, c, payload)
 	return r.r0, r.payload
+}
+
+// FSHist returns the idx-th write to the simulated disk: its data and the durable content
+// it replaced.
+func FSHist(idx int) (name string, data, prev []byte, hadPrev, ok bool) {
+	r := call(opFSCtl, FSCtlHistory, int64(idx), 0, 0, nil)
+	if r.r0 != 1 {
+		return "", nil, nil, false, false
+	}
+	p := r.payload
+	i := 0
+	for i < len(p) && p[i] != 0 {
+		i++
+	}
+	name = string(p[:i])
+	rest := p[i+1:]
+	if r.r1 >= 0 {
+		n := int(r.r1)
+		return name, rest[:len(rest)-n], rest[len(rest)-n:], true, true
+	}
+	return name, rest, nil, false, true
 }
 
 // Deadline tells the kernel the virtual time after which the run must not continue (safety net).
